@@ -33,6 +33,12 @@
  *        (in a forked child) mcount_arch_find_module() for a module whose file is <elf path> (a real
  *        ELF without patchable/xray sections), whose code is the window and whose symbol table is the
  *        given one                                   -> "FT <mdi->type> <check_trace_functions()>"
+ *  RPL <elf path> <dyn 0|1> <sh_addr> <first_vaddr> <n> {<file address of location>}*
+ *        (in a forked child) the module is the real ELF <elf path> (it has a __patchable_function_entries
+ *        section of n entries at file address sh_addr); it is "loaded" with some load bias (ET_EXEC: 0),
+ *        i.e. the n relocated entries (location + bias) are put at sh_addr + bias, base_addr = map->start
+ *        = first_vaddr + bias; then mcount_arch_find_module() -> read_patchable_loc()
+ *                                                  -> "RP <mdi->type> <nr_patch_target> <targets...>"
  *  QUIT
  */
 #include "libmcount/dynamic.c"
@@ -413,6 +419,59 @@ static void find_child(void)
 	_exit(0);
 }
 
+static void rpl_child(void)
+{
+	char *elf = unhex_str(next_tok());
+	int dyn = atoi(next_tok());
+	unsigned long sh_addr = strtoul(next_tok(), NULL, 0);
+	unsigned long first_vaddr = strtoul(next_tok(), NULL, 0);
+	int n = atoi(next_tok());
+	unsigned long locs[64], bias, *sect;
+	struct uftrace_module *mod;
+	struct uftrace_mmap *map;
+	struct mcount_dynamic_info *mdi;
+	unsigned char *region;
+	unsigned i;
+
+	for (i = 0; i < (unsigned)n && i < 64; i++)
+		locs[i] = strtoul(next_tok(), NULL, 0);
+	if (dyn) {
+		region = mmap(NULL, 3 * PG, PROT_READ | PROT_WRITE, MAP_PRIVATE | MAP_ANONYMOUS, -1, 0);
+		bias = (unsigned long)region - (sh_addr & ~(PG - 1));
+	}
+	else {
+		region = mmap((void *)(sh_addr & ~(PG - 1)), 3 * PG, PROT_READ | PROT_WRITE,
+			      MAP_PRIVATE | MAP_ANONYMOUS | MAP_FIXED_NOREPLACE, -1, 0);
+		bias = 0;
+		if (region != (void *)(sh_addr & ~(PG - 1)))
+			region = MAP_FAILED;
+	}
+	if (region == MAP_FAILED) {
+		printf("ERR mmap\n");
+		exit(3);
+	}
+	sect = (unsigned long *)(sh_addr + bias);
+	for (i = 0; i < (unsigned)n; i++)
+		sect[i] = locs[i] + bias;
+	mod = xzalloc(sizeof(*mod) + 16);
+	strcpy(mod->name, "mod");
+	map = make_map(elf);
+	map->start = first_vaddr + bias;
+	map->end = map->start + 16 * PG;
+	map->mod = mod;
+	mdi = xzalloc(sizeof(*mdi));
+	mdi->map = map;
+	mdi->base_addr = map->start;
+	INIT_LIST_HEAD(&mdi->bad_syms);
+	mcount_arch_find_module(mdi, &mod->symtab);
+	printf("RP %d %u", mdi->type, mdi->nr_patch_target);
+	for (i = 0; i < mdi->nr_patch_target && mdi->patch_target; i++)
+		printf(" %ld", (long)((unsigned long *)mdi->patch_target)[i]);
+	printf("\n");
+	fflush(stdout);
+	_exit(0);
+}
+
 int main(void)
 {
 	static char line[400000];
@@ -430,7 +489,7 @@ int main(void)
 			do_query();
 		else if (!strcmp(cmd, "MOD"))
 			do_mod();
-		else if (!strcmp(cmd, "UPD") || !strcmp(cmd, "FIND")) {
+		else if (!strcmp(cmd, "UPD") || !strcmp(cmd, "FIND") || !strcmp(cmd, "RPL")) {
 			pid_t pid;
 			int status = 0;
 			fflush(stdout);
@@ -438,6 +497,8 @@ int main(void)
 			if (pid == 0) {
 				if (!strcmp(cmd, "FIND"))
 					find_child();
+				if (!strcmp(cmd, "RPL"))
+					rpl_child();
 				upd_child();
 				_exit(0);
 			}
